@@ -155,6 +155,10 @@ func c17Types() []c17Type {
 				if wantValid {
 					return nil, time.Date(int(y), time.Month(m), d, r.Intn(24), r.Intn(60), 0, 0, time.UTC)
 				}
+				if r.Chance(1, 3) {
+					hs := hostileScanSources()
+					return nil, hs[r.Intn(len(hs))]
+				}
 				t := ref.DateText(y, m, d, false)
 				return nil, []any{nil, "2021-01-01", []byte("2021-01-01"), 42, 1.5, true, struct{}{}, &time.Time{}, t, []byte(t), t + " 25:61:00", t + "T12:00", t + " ", []byte(t + " 12:00:00x"), t + "x", []byte(t + "\x00"), int64(y), float64(d)}[r.Intn(18)]
 			},
